@@ -1024,6 +1024,8 @@ def check_c12(prop, tier, replay, selftest):
                         if k not in ("adf", "op", "query", "hist"):
                             continue
                         b = B.get(a.get("id"))
+                        if b is None and str(a.get("id", "")).startswith("m") and not fe:
+                            continue      # mirror-as-store sequences exist only in builds with the frontend feature (own random stream)
                         if b is None or b.get("kind") != k or (k == "op" and (b.get("op"), b.get("a"), b.get("b")) != (a.get("op"), a.get("a"), a.get("b"))):
                             # the seeded workload took a different course under this build: some earlier answer differed
                             rec = {"what": "diverged", "id": a.get("id"), "default": k, "variant": (b or {}).get("kind", "missing")}
